@@ -54,6 +54,9 @@ struct Reg
 	std::vector<std::unique_ptr<tcp::socket>> accepted; // sockets produced by accepts
 	std::vector<int> accepted_from;                      // acceptor obj index
 	std::unique_ptr<tcp::socket> accept_into[k_max_objs];
+	bool into_bound[k_max_objs] = {};   // the application bound the accept target itself while the accept was pending
+	model::Ep into_ep[k_max_objs];
+	static int into_owner(int i) { return 1000 + i; } // the model's name for an accept target
 	std::vector<uint8_t> rbuf[k_max_objs];
 	udp::endpoint rfrom[k_max_objs];
 	std::vector<std::pair<int, std::vector<uint8_t>>> udp_got; // (obj, payload)
@@ -361,6 +364,7 @@ struct Reg
 	{
 		Obj& o = objs[i];
 		if (o.kind != 1 || !o.listening || o.accept_pending) return;
+		if (into_bound[i]) { reg.release(0, into_ep[i], into_owner(i)); into_bound[i] = false; } // destroying the old target releases what it held
 		accept_into[i].reset(new tcp::socket(*ioc[size_t(o.node)]));
 		o.accept_pending = true;
 		int const g = o.gen;
@@ -386,10 +390,29 @@ struct Reg
 			objs[i].accept_pending = false;
 			ctx.tr.rec("accepted", {i, ec.value()}, {now_ns()});
 			if (ec) return;
+			// the connection re-opened the target: what the application had bound it to is free again
+			if (into_bound[i]) { reg.release(0, into_ep[i], into_owner(i)); into_bound[i] = false; ctx.hit("accepted_into_bound_socket"); }
 			accepted.push_back(std::move(accept_into[i]));
 			accepted_from.push_back(i);
 			ctx.hit("accepted");
 		});
+		if (plan.c("bind_accept_target") && (accepted.size() + size_t(i)) % 3 == 0)
+		{
+			// an application that opens and binds the socket it has already handed to async_accept
+			auto const mine = own(o.node, o.v4);
+			if (mine.empty()) return;
+			model::Ep const want{mine.front(), k_ports[(accepted.size() * 3 + size_t(i)) % size_t(k_nports)]};
+			if (reg.taken(0, want) || tainted.count({0, want})) return;
+			error_code ec;
+			accept_into[i]->open(o.v4 ? tcp::v4() : tcp::v6(), ec);
+			accept_into[i]->bind(tcp::endpoint(ip::make_address(want.addr), uint16_t(want.port)), ec);
+			if (ec) { fail("registry.bind.refused", "bind of an accept target to the free endpoint " + eps(want) + " failed with " + errname(ec.value())); return; }
+			into_bound[i] = true;
+			into_ep[i] = want;
+			reg.bind(0, want, into_owner(i));
+			universe.insert({0, want});
+			ctx.hit("accept_target_bound");
+		}
 	}
 
 	void do_connect(int i, int64_t target)
@@ -518,7 +541,7 @@ struct Reg
 				p->s.reset(new tcp::socket(*ioc[size_t(from)]));
 				int const ow = reg.who(0, e);
 				p->expect_owner = ow;
-				p->expect_listen = ow >= 0 && objs[ow].kind == 1 && objs[ow].listening;
+				p->expect_listen = ow >= 0 && ow < nobj && objs[ow].kind == 1 && objs[ow].listening;
 				if (p->expect_listen && !objs[ow].accept_pending) continue; // only one accept per acceptor is armed per round
 				if (p->expect_listen) objs[ow].accept_pending = true;       // consumed by this probe (stays true until the handler)
 				std::shared_ptr<TProbe> raw = p; // the handler may run after this round (abort on destruction)
@@ -685,6 +708,7 @@ struct RegistryEngine : Engine
 		}
 		int const no = int(rng.range(2, k_max_objs));
 		p.cfg["objs"] = no;
+		p.cfg["bind_accept_target"] = rng.chance(0.3) ? 1 : 0;
 		for (int i = 0; i < no; ++i)
 		{
 			p.cfg["o" + std::to_string(i) + "kind"] = int64_t(rng.below(3));
